@@ -135,7 +135,8 @@ def evaluate(case, pres, want_fair=False):
     out = {}
     try:
         K = Kripke(S, S0, R, L)
-        f = core.build_formula(tree, case['logic'])
+        f = core.build_formula(tree, case['logic'],
+                               bool(case.get('raw_leaves')))
         mc = core.lang_module(case['logic']).modelcheck
         if F is None:
             res = mc(K, f)
@@ -189,7 +190,11 @@ def gen_case(rng, cfg):
             K['E'] = gen.uniformise_selfloops(rng, K['n'], K['E'])
     S0 = sorted(rng.sample(range(K['n']), rng.randint(0, K['n']))) \
         if rng.random() < 0.4 else []
-    return {'K': K, 'logic': logic, 'f': f, 'F': F, 'S0': S0}
+    # how the formula object is built is part of the case (the same in every
+    # execution): leaves as AtomicProposition/Bool objects, or as plain
+    # str/bool handed to the operator constructors
+    return {'K': K, 'logic': logic, 'f': f, 'F': F, 'S0': S0,
+            'raw_leaves': rng.random() < 0.3}
 
 
 def gen_presentation(rng, case, cfg):
